@@ -291,6 +291,7 @@ func genBytes(t *rapid.T, label string) []byte {
 	}
 	alpha := rapid.SampledFrom([][]byte{
 		[]byte("ab"), []byte("abcdefghijklmnopqrstuvwxyz"), {1, 2, 0xFF, 0xFE, 'a'}, {1, 0xFF}, []byte("aあ😀z"),
+		[]byte("a b"), {' ', '\t', 'a', '\n'}, []byte(" "), []byte("aA%_'\"\\"), // blanks (leading, trailing, only), upper case, characters special elsewhere
 	}).Draw(t, label+"alpha")
 	b := make([]byte, n)
 	if n <= 300 {
@@ -346,7 +347,7 @@ func genPair(t *rapid.T) *Case {
 			c.B.S = append([]byte{}, c.A.S...)
 		case 1: // proper extension
 			c.B.S = append(append([]byte{}, c.A.S...), genBytes(t, "ext")...)
-		case 2: // last byte neighbour
+		case 2: // last byte neighbour (for a string ending in a blank this is also "the same text with / without trailing blank")
 			c.B.S = append([]byte{}, c.A.S...)
 			if n := len(c.B.S); n > 0 {
 				if c.B.S[n-1] < 0xFF {
